@@ -194,6 +194,14 @@ fn pair_features(sa: &ConfigState, sb: &ConfigState) -> BTreeSet<String> {
     }
     // a bucket emptied by removals (kept as an empty bucket by the state, absent from a bootstrap)
     if sb.backends.values().any(|v| v.is_empty()) || sb.tcp_fronts.values().any(|v| v.is_empty()) { f.insert("empty_bucket".to_string()); }
+    // a TCP address claimed by the frontends of two clusters (in A or in B): the state keeps both (tcp_fronts is keyed by
+    // cluster id), a worker's TCP listener holds exactly one cluster id, so which cluster is served is decided by the order
+    // in which the AddTcpFrontend commands arrive - and generate_requests walks a HashMap (finding C06-W6)
+    for st in [sa, sb] {
+        let mut owner: BTreeMap<String, BTreeSet<&str>> = BTreeMap::new();
+        for (cid, fronts) in st.tcp_fronts.iter() { for fr in fronts { owner.entry(format!("{:?}", fr.address)).or_default().insert(cid.as_str()); } }
+        if owner.values().any(|c| c.len() >= 2) { f.insert("tcp_address_claimed_by_two_clusters".to_string()); }
+    }
     for x in cfggen::pair_features(sa, sb) { f.insert(x.to_string()); }
     f
 }
